@@ -45,6 +45,7 @@ type atpServerSession struct {
 	runDoneChannel chan bool
 	pluginSchema   *schema.CallableSchema
 	encoderMutex   sync.Mutex
+	stdinCloseOnce sync.Once
 }
 
 type ServerError struct {
@@ -108,6 +109,16 @@ func (s *atpServerSession) sendRuntimeMessage(msgID uint32, runID string, messag
 	}
 }
 
+// closeStdin closes the input, once: the read loop closes it when the client says it is done, the closure handler when
+// the context is cancelled or the server gives up, and either may come first. Closing an *os.File a second time is an
+// error, which would be taken for a failure of the server.
+func (s *atpServerSession) closeStdin() (err error) {
+	s.stdinCloseOnce.Do(func() {
+		err = s.stdinCloser.Close()
+	})
+	return err
+}
+
 func (s *atpServerSession) handleClosure() []*ServerError {
 	// Whatever makes this function stop: steps and signal handlers that are still running keep sending their reports
 	// until workDone is closed. Keep taking them, so that none of them blocks for ever on a full channel.
@@ -152,7 +163,7 @@ closeLoop:
 			// are still running are reported until they have all finished and workDone is closed.
 			if (err != nil || errorSent.ServerFatal) && !stdinClosed {
 				stdinClosed = true
-				err = s.stdinCloser.Close()
+				err = s.closeStdin()
 				if err != nil {
 					return append(errors, &ServerError{
 						RunID:       errorSent.RunID,
@@ -168,7 +179,7 @@ closeLoop:
 			cancelled = nil
 			if !stdinClosed {
 				stdinClosed = true
-				if err := s.stdinCloser.Close(); err != nil {
+				if err := s.closeStdin(); err != nil {
 					return append(errors, &ServerError{
 						RunID:       "",
 						Err:         fmt.Errorf("error closing stdin (%w) after the context was cancelled", err),
@@ -249,7 +260,7 @@ func (s *atpServerSession) onRuntimeMessageReceived(message *DecodedRuntimeMessa
 		return false
 	case MessageTypeClientDone:
 		// It's now safe to close the channel
-		err := s.stdinCloser.Close()
+		err := s.closeStdin()
 		if err != nil {
 			s.workDone <- ServerError{
 				// this error does not apply to a specific run id
